@@ -4,7 +4,7 @@ from fractions import Fraction
 
 RULE = ('strings are rendered from random derivation trees of the documented grammar (known denotation), plus a '
         'sweep of one-atom strings for every nameable atom, plus one malformed sibling per applicable malformation '
-        'class; distinct = distinct derivation shapes (symbols, tags and counts abstracted to E/I/Q/n/f) of positive '
+        'class; distinct = distinct derivation shapes (symbols, tags and counts abstracted to E/^/~/n/f) of positive '
         'strings and distinct (class, shape) of malformed ones; non-trivial = has a tag, a count other than 1 or more than one group')
 SHARDS = {'quick': 8, 'thorough': 16}
 TIMEOUT = {'quick': 900, 'thorough': 7200}
